@@ -190,6 +190,13 @@ def gen(rng, tier):
     yield sess_scn("disconnect-one", [{"hex": "670a", "end": "reset"}], settle_ms=200)
     # shutdown while stalled clients are still connected: handlers time out after 2 s < 5 s
     yield sess_scn("shutdown-pending", [{"hex": hx([0x67] * k), "end": "read", "bg": True} for k in (0, 1, 5, 31)], dtor_at_ms=300)
+    # a reply larger than the socket send buffer to a client that never reads: the handler's send must time out (2 s) and the
+    # handler must go away - while the client is still connected (shutdown at 300 ms completes) and after it left
+    big = [["set", "counter.%05d.%s" % (i, "x" * 64), i % 7] for i in range(6000)]
+    yield sess_scn("stalled-reader-big-reply", [{"hex": "670a", "end": "reset", "close_delay_ms": 9000, "bg": True}],
+                   init=big, dtor_at_ms=300, watchdog_ms=12000)
+    yield sess_scn("stalled-reader-big-reply", [{"hex": "670a", "end": "reset", "close_delay_ms": 3500, "bg": True}, {"hex": "300a"}],
+                   init=big, watchdog_ms=12000)
     # ASan flavour: path lengths, unusable paths, and a sample of sessions / api
     for L in range(100, 121):
         yield {"kind": "path", "flavour": "asan", "tag": "path-server", "who": "server", "len": L}
@@ -322,7 +329,7 @@ class C19Check(core.Check):
             groups["asan" if s.get("flavour") == "asan" else "tsan"].append(s)
         # long-running (stall / shutdown) scenarios first so they overlap with the quick ones
         def weight(s):
-            return -1 if any(x in s.get("tag", "") for x in ("stall", "late", "shutdown", "trickle", "window")) else 0
+            return -1 if any(x in s.get("tag", "") for x in ("stall", "late", "shutdown", "trickle", "window", "stalled-reader")) else 0
         jobs = max(4, min(10, core.NCPU - 4))
         for fl, env in (("tsan", TSAN_ENV), ("asan", ASAN_ENV)):
             g = sorted(groups[fl], key=weight)
@@ -378,6 +385,10 @@ def run(tier, seed, replay=None):
     else:
         scs = ck.corpus()
         g = list(gen(rng, tier))
+        changed = core.changed_sources()
+        if changed and tier == "quick" and not os.environ.get("VERIF_NO_ESCALATION"):
+            g += list(gen(random.Random(seed * 31 + 5), "search"))
+            ck.notes.append("escalated (quick + search budget): sources changed since the last validated tree: " + ", ".join(changed[:8]))
         for i, s in enumerate(g):
             s.setdefault("id", "%s-s%d-%d" % (PROP, seed, i))
         scs += g
